@@ -334,6 +334,12 @@ func (t *Traffic) Data(e []byte, id int, big bool) []byte {
 		d := &wire.SFDatagram{Version: 5, Agent: e[len(e)-4:], SubAgent: g.U32(), Seq: uint32(id), UpTime: g.U32()}
 		if len(e) == 16 && !(e[10] == 0xff && e[11] == 0xff) {
 			d.Agent = e
+		} else if g.Chance(1, 4) {
+			// the agent address is a field of the datagram, not the UDP source: an IPv6 agent behind an IPv4 exporter
+			d.Agent = append([]byte{0x20, 0x01, 0x0d, 0xb8, 0, 0, 0, 0, 0, 0, 0, 1}, e[len(e)-4:]...)
+		}
+		if g.Chance(1, 3) {
+			d.SubAgent = 0 // the usual value on single-agent devices
 		}
 		n := 1
 		if big {
